@@ -1119,6 +1119,33 @@ void Preprocessor::dump(std::ostream &out) const
     }
 }
 
+static bool hasComputedInclude(const simplecpp::TokenList &tokens)
+{
+    for (const simplecpp::Token *tok = tokens.cfront(); tok; tok = tok->next) {
+        if (tok->op != '#' || (tok->previous && tok->previous->location.sameline(tok->location)))
+            continue;
+        const simplecpp::Token * const inc = tok->next;
+        if (!inc || !inc->location.sameline(tok->location) || (inc->str() != "include" && inc->str() != "include_next"))
+            continue;
+        const simplecpp::Token * const header = inc->next;
+        // neither "file" nor <file>
+        if (header && header->location.sameline(tok->location) && header->name)
+            return true;
+    }
+    return false;
+}
+
+bool Preprocessor::hasComputedIncludes() const
+{
+    if (hasComputedInclude(mTokens))
+        return true;
+    for (const auto &filedata : mFileCache) {
+        if (hasComputedInclude(filedata->tokens))
+            return true;
+    }
+    return false;
+}
+
 std::size_t Preprocessor::calculateHash(const std::string &toolinfo) const
 {
     std::string hashData = toolinfo;
